@@ -2,6 +2,7 @@ package main
 
 import (
 	"bytes"
+	"context"
 	"encoding/json"
 	"fmt"
 	"os"
@@ -11,6 +12,7 @@ import (
 	"runtime/debug"
 	"strconv"
 	"strings"
+	"time"
 
 	"github.com/ChrisTrenkamp/xsel/node"
 	"github.com/ChrisTrenkamp/xsel/store"
@@ -164,10 +166,22 @@ func runStackFaults(verifDir string, sizes []int) ([]simkit.FoundViolation, []an
 				continue
 			}
 			runs++
-			cmd := exec.Command(self(), "stackchild", sh.Name, fmt.Sprint(n))
+			ctx, cancel := context.WithTimeout(context.Background(), 240*time.Second)
+			cmd := exec.CommandContext(ctx, self(), "stackchild", sh.Name, fmt.Sprint(n))
 			var out, errb bytes.Buffer
 			cmd.Stdout, cmd.Stderr = &out, &errb
 			err := cmd.Run()
+			timedOut := ctx.Err() != nil
+			cancel()
+			if timedOut {
+				// the stack bound says nothing about time: a build that is merely slow
+				// (e.g. quadratic in surplus end events) is noted, not judged
+				faults["stack-ceiling-run-not-finished-in-240s"]++
+				if len(samples) < 8 {
+					samples = append(samples, map[string]any{"shape": sh.Name, "events_n": n, "result": "not finished within 240 s: not judged (the property bounds stack, not time)"})
+				}
+				continue
+			}
 			faults["stack-ceiling"]++
 			st := errb.String()
 			overflow := strings.Contains(st, "stack overflow") || strings.Contains(st, "goroutine stack exceeds")
